@@ -150,6 +150,8 @@ func propC12(c *Ctx) string {
 	c12Disc(c, v)
 	c20NoAuth(c, v, "C12")
 	c12SetupState(c, v, "C12")
+	// the will is published through Backend.Publish with a nil ack: its QoS, not the ack, must select the queue
+	c08Offline(c, v)
 	c.NotDecide("that every termination cause (keep-alive expiry, shutdown, takeover, malformed packet) reaches tomb death — liveness",
 		"the content of the published will at runtime (handed on unchanged: C11/WILL)", "exactly-once under concurrent Close/die races beyond the single reaper argument")
 	c.Assume("tomb.v2: Wait returns only after all tracked goroutines returned", "instance-insensitive field keys")
@@ -184,6 +186,37 @@ func c12Writers(c *Ctx, v *vocab) {
 				}
 			}
 			r.Check(w.fn+":will=pkt.Will after Setup→ok", ok && n > 0, w.pos.Pos(), len(in.Traces), "the will must be taken from the CONNECT packet, only once the backend accepted the client and the session is stored", c.witness(wt)...)
+			// an accepted client's will is in place before the CONNACK leaves: on every path that sends the
+			// accepted CONNACK the will was stored before, unless the CONNECT carried none (the only admissible
+			// guard). A store behind any other condition, or after the CONNACK / the resend loop / Restore, loses
+			// the will of an accepted client that fails in between.
+			okB, nAcc := true, 0
+			var wb *Trace
+			for _, t := range in.Traces {
+				s := t.first(callTo(v.bkSetup))
+				if s < 0 || t.errOutcome(t.Ev[s]) != -1 {
+					continue
+				}
+				ca := t.firstFrom(s, sendOf(v, "Connack"))
+				if ca < 0 {
+					continue
+				}
+				nAcc++
+				stored, none := false, false
+				for i, e := range t.Ev {
+					if i < ca && e.Kind == EvAssign && e.LObj == v.fWill && !e.Conditional {
+						stored = true
+					}
+					if (e.Kind == EvCond || e.Kind == EvOutcome) && e.Var == connWill && e.Nilness == -1 {
+						none = true
+					}
+				}
+				if !stored && !none {
+					okB, wb = false, t
+				}
+			}
+			r.Check(w.fn+":will stored≺send(CONNACK accepted)", okB && nAcc > 0, w.pos.Pos(), len(in.Traces),
+				"a path accepts the client (CONNACK sent) although the CONNECT's will has not been stored yet, or the store depends on something other than the presence of a will: a failure after acceptance then publishes no will", c.witness(wb)...)
 		case disc.Name:
 			in := c.traces(disc)
 			ok, n := true, 0
@@ -577,6 +610,9 @@ func propC13(c *Ctx) string {
 		c.judgeLocks(r, res, guards, nil)
 	}
 	c13Setup(c, v)
+	c13TermGuard(c, v)
+	// in-flight and queued messages pass to the newcomer: nothing dequeued may be dropped before it is stored
+	c08StoreSend(c, v, "C13")
 	c12Once(c, v, "C13")
 	c12SetupState(c, v, "C13")
 	// CONNACK after Setup
@@ -1437,4 +1473,53 @@ func giveAttempts(c *Ctx, fi *FuncInfo, t *Trace, tok *types.Var, from int) (int
 		}
 	}
 	return n, blocking
+}
+
+// c13TermGuard: cleanup calls Backend.Terminate for every client whose state reached 'connected', and the state is
+// stored before Setup (SETUPSTATE) — so Terminate also runs for a contender whose Setup failed (kill timeout,
+// shutdown) and that never owned the id. Removing the id-map entry must therefore be conditional on the entry being
+// this client; an unconditional delete unregisters the connection that still owns the id, and the next CONNECT with
+// that id finds nobody to close: two live connections.
+func c13TermGuard(c *Ctx, v *vocab) {
+	r := c.Rule("C13/TERMGUARD", "TRACE", "MemoryBackend.Terminate removes activeClients[id] only on paths that compared the entry with the terminating client (it is also called for clients whose Setup failed)", 1)
+	tf := c.mustFunc(r, "broker.(*MemoryBackend).Terminate")
+	actives := c.P.Field("broker", "MemoryBackend", "activeClients")
+	if tf == nil || actives == nil {
+		return
+	}
+	in := c.traces(tf)
+	th := &Interp{P: c.P, Info: tf.Pkg.TypesInfo}
+	tsig := tf.Obj.Type().(*types.Signature)
+	ok, n := true, 0
+	var w *Trace
+	for _, t := range in.Traces {
+		mine := false
+		for _, e := range t.Ev {
+			if e.Kind == EvCond {
+				if b, isB := ast.Unparen(e.Cond).(*ast.BinaryExpr); isB && (b.Op == token.EQL || b.Op == token.NEQ) {
+					x, y := ast.Unparen(b.X), ast.Unparen(b.Y)
+					if _, isIx := x.(*ast.IndexExpr); !isIx {
+						x, y = y, x
+					}
+					if ix, isIx := x.(*ast.IndexExpr); isIx && th.objOf(ix.X) == actives {
+						if id, isId := y.(*ast.Ident); isId && tsig.Params().Len() > 0 && th.objOf(id) == tsig.Params().At(0) {
+							if (b.Op == token.EQL) == e.Outcome {
+								mine = true
+							}
+						}
+					}
+				}
+			}
+			if e.Kind == EvCall {
+				if b, isB := e.Callee.(*types.Builtin); isB && b.Name() == "delete" && th.objOf(e.Call.Args[0]) == actives {
+					n++
+					if !mine {
+						ok, w = false, t
+					}
+				}
+			}
+		}
+	}
+	r.Check(tf.Name+":delete(activeClients[id]) only if it is this client", ok && n > 0, tf.Decl.Pos(), len(in.Traces),
+		"the id is unregistered without checking that it belongs to the terminating client: a contender that failed Setup unregisters the live owner of the id", c.witness(w)...)
 }
